@@ -120,12 +120,6 @@ func (r *envelopeReader) Unmarshal(message any) *Error {
 	env := &envelope{Data: buffer}
 	err := r.Read(env)
 	switch {
-	case err == nil &&
-		(env.Flags == 0 || env.Flags == flagEnvelopeCompressed) &&
-		env.Data.Len() == 0:
-		// This is a standard message (because none of the top 7 bits are set) and
-		// there's no data, so the zero value of the message is correct.
-		return nil
 	case err != nil && errors.Is(err, io.EOF):
 		// The stream has ended. Propagate the EOF to the caller.
 		return err
